@@ -126,7 +126,7 @@ func (p *Proof) IsValid(public Public) bool {
 	}
 
 	N := public.N.Big()
-	if big.Jacobi(p.W, N) != -1 {
+	if p.W == nil || big.Jacobi(p.W, N) != -1 {
 		return false
 	}
 
@@ -225,7 +225,8 @@ func (r *Response) Verify(n, w, y *big.Int) bool {
 }
 
 func (p *Proof) Verify(public Public, hash *hash.Hash, pl *pool.Pool) bool {
-	if p == nil {
+	// responses outside [1, N-1] (X+N, -X, ...) satisfy the equations below as well
+	if !p.IsValid(public) {
 		return false
 	}
 	n := public.N.Big()
